@@ -229,6 +229,32 @@ def run(index, rep, tier):
         rep.rule("R18.8", "the simulators obtain tip taxa through require_taxon on the supplied namespace: label lookup folds consistently and follows relabelling (C10 R10.9), and the accession index that orders gene sets is unique per member (C10 R10.2, R10.3)")
         rep.floor("R18.8", "borrowed obligations", 8, borrow(index, rep, "C10", {"R10.9", "R10.2", "R10.3"}, "R18.8"))
 
+    # ---- R18.9 a restart starts from a copy of the saved initial state
+    with rep.section("R18.9"):
+        rep.rule("R18.9", "a restart starts from a COPY of the saved initial state: in the simulators a working list that is changed in place (append / remove / pop) is never rebound to a saved snapshot itself, only to list(snapshot) - otherwise the first restart edits the snapshot and the second restart resumes from a corrupted state")
+        nre = 0
+        for m in SIM_MODULES[:3]:
+            for f in index.functions_in_module(m):
+                snaps = {}
+                for a in walk_no_nested(f.node):
+                    if isinstance(a, ast.Assign) and len(a.targets) == 1 and isinstance(a.targets[0], ast.Name) and isinstance(a.value, ast.Call) and isinstance(a.value.func, ast.Name) and a.value.func.id in ("list", "set", "dict") and a.value.args and isinstance(a.value.args[0], ast.Name):
+                        snaps.setdefault(a.targets[0].id, []).append(a)
+                snaps = {k: v for k, v in snaps.items() if len(v) == 1 and not any(w.kind == "mutcall" and w.base is None and w.attr == k for w in writes_in(f.node))}
+                if not snaps:
+                    continue
+                mutated = {c.func.value.id for c in calls_in(f.node) if isinstance(c.func, ast.Attribute) and c.func.attr in MUTATORS and isinstance(c.func.value, ast.Name)}
+                for a in walk_no_nested(f.node):
+                    if isinstance(a, ast.Assign) and len(a.targets) == 1 and isinstance(a.targets[0], ast.Name) and a.targets[0].id in mutated:
+                        v = a.value
+                        if isinstance(v, ast.Call) and isinstance(v.func, ast.Name) and v.func.id in ("list", "set", "dict") and v.args and isinstance(v.args[0], ast.Name) and v.args[0].id in snaps and a is not snaps[v.args[0].id][0]:
+                            nre += 1
+                            rep.ob("R18.9", fn_where(f, a), "%s: `%s` restarts from a copy" % (f.name, norm_stmt(a)[:60]), True)
+                        elif isinstance(v, ast.Name) and v.id in snaps and v.id != a.targets[0].id:
+                            nre += 1
+                            rep.check(False, "R18.9", f.qualname, "working list rebound to the snapshot itself: %s" % norm_stmt(a)[:50], fn_where(f, a), "",
+                                      "%s rebinds `%s`, which it changes in place, to the saved snapshot `%s` itself (`%s`): from then on appending to / removing from the working list edits the snapshot, so a second restart in the same call resumes with tips that belong to the abandoned attempt and the final pruning fails (or the tree carries lineages it should not)" % (f.qualname, a.targets[0].id, v.id, norm_stmt(a)[:60]))
+        rep.floor("R18.9", "restarts from a saved snapshot in the simulators", 2, nre)
+
 
 def _distinct_labels_rule(index, rep):
     """R18.3: `require_taxon(label=L)` returns an *existing* taxon when the label is taken, so a
